@@ -22,7 +22,7 @@ RULE = (
     "harness-controlled hash values of tasks/components (iteration order of the library's internal sets); "
     "R3 simulate again on the same object, also after backward_simulate (with and without considering_due_time_of_tail_tasks) / initialize / insert+remove absence / "
     "simulate() with default arguments, and a fresh project simulated with default arguments afterwards (no "
-    "hidden state); R5 warm start: the model is obtained by editing, in place, the objects of another model that has "
+    "hidden state); R6 after a cut run: on models whose behaviour does not depend on the absolute time (no absence lists, no task complete from the start, not FIFO) simulate(initialize_state_info=True, initialize_log_info=False) after a run cut short by max_time appends exactly the log of a fresh run; R5 warm start: the model is obtained by editing, in place, the objects of another model that has "
     "already been simulated (morph), or by swapping freshly built product/workflow/organization into a used project "
     "object (graft) - the result must equal the fresh build; R4 (thorough) the same batch of specs simulated in child processes with other "
     "PYTHONHASHSEED values. Non-trivial = the reference run has two FF/SF-linked tasks whose finish checks fall "
@@ -53,6 +53,9 @@ CFG = gen.Cfg(onesided=4, servable=3, due=True,
 # assembly form around (parent tasks first) and leads into the nested-placement findings D-PLC2..4 of C13
 CFG_N = CFG.copy(nested="free", max_wps=0, multi_parent=2)
 
+# models on which relation R6 applies: no absence lists, nothing complete from the start, no FIFO
+CFG_R6 = CFG.copy(worker_abs=False, project_abs=False, progress=False, rules=[0, 0, 1, 2, 3, 5, 6, 7, 8], servable=2, max_time=[60])
+
 OPS = ["sim", "sim_default", "backward", "backward_due", "backward_due", "init", "insert_remove", "resim"]
 
 
@@ -79,20 +82,38 @@ def _case(draw, cfg):
         "ops": draw(st.lists(st.sampled_from(OPS), max_size=3)),
         "junk": draw(st.integers(1, 50)),
         "warm": draw(st.sampled_from([[], [], ["morph"], ["graft"], ["morph", "graft"]])),
+        "r6": draw(st.sampled_from([0, 1, 2, 3, 5])),
     }
 
 
 def strategy(tier):
     if tier == "quick":
-        return st.one_of(_case(CFG), _case(CFG), _case(CFG_N))
+        return st.one_of(_case(CFG), _case(CFG), _case(CFG_N), _case(CFG_R6))
     big = dict(max_tasks=10, max_workers=7)
-    return st.one_of(_case(CFG.copy(**big)), _case(CFG.copy(**big)), _case(CFG_N.copy(**big)))
+    return st.one_of(_case(CFG.copy(**big)), _case(CFG.copy(**big)), _case(CFG_N.copy(**big)), _case(CFG_R6.copy(**big)))
 
 
 def budget(tier):
     if tier == "quick":
         return {"cases": 1600, "shards": 4}
     return {"cases": 96000, "shards": 16}
+
+
+def _time_shift_invariant(spec):
+    if spec["opts"].get("abs") or spec["opts"].get("rule") == 4:
+        return False
+    if any(w.get("abs") for w in spec["workers"]) or any(f.get("abs") for f in spec["facs"]):
+        return False
+    return not any(t.get("prog", 0.0) >= 1.0 - 1e-10 for t in spec["tasks"])
+
+
+def _strip(d, t0):
+    """The dump without the first t0 entries of every per-step log (and time counted from t0)."""
+    if isinstance(d, dict):
+        return {k: (v - t0 if k == "time" else _strip(v, t0)) for k, v in d.items()}
+    if isinstance(d, list):
+        return d[t0:]
+    return d
 
 
 def _run(spec, **kw):
@@ -175,6 +196,21 @@ def check(case):
         if dw != dref:
             diffs = S.diff_dumps(dref, dw)
             res.fail("C09.R5_warm_start", "a model edited into this spec after an earlier run (%s) differs from the fresh build: %s" % (mode, "; ".join(diffs[:3])), sig=mode)
+
+    # R6: a run that was cut short by max_time leaves nothing behind that survives a state reset. On models without
+    # absence lists, without tasks that are complete from the start and under a rule other than FIFO (which counts log
+    # entries) the simulation does not depend on the absolute time, so simulate(initialize_state_info=True,
+    # initialize_log_info=False) after a cut run must append exactly the log of a fresh run to the steps already there.
+    if case.get("r6") and _time_shift_invariant(spec):
+        hb = S.build(spec)
+        S.simulate(hb.project, dict(spec["opts"], max_time=int(case["r6"])))
+        t0 = int(hb.project.time)
+        S.simulate(hb.project, dict(spec["opts"], max_time=spec["opts"]["max_time"] + t0), initialize_state_info=True, initialize_log_info=False)
+        db = _strip(S.dump(hb.project), t0)
+        res.cls("R6_appended_run")
+        if db != dref:
+            diffs = S.diff_dumps(dref, db)
+            res.fail("C09.R6_after_cut_run", "state-initialized run appended to a run cut at max_time=%s differs from a fresh run: %s" % (case["r6"], "; ".join(diffs[:3])))
 
     # R3: repetition on one object / no hidden state
     p = href.project
